@@ -27,15 +27,17 @@ for c in checks:
     else: res[c] = 'no result line'
 dst = f'/verif/seeded/{name}'
 os.makedirs(dst, exist_ok=True)
-shutil.copy(os.path.join(src, 'patch.diff'), dst)
-if isdir:
+if os.path.abspath(src) != os.path.abspath(dst): shutil.copy(os.path.join(src, 'patch.diff'), dst)
+same = os.path.abspath(src) == os.path.abspath(dst)
+if same: pass
+elif isdir:
     shutil.rmtree(os.path.join(dst, 'demo'), ignore_errors=True); shutil.copytree(demo, os.path.join(dst, 'demo'))
 else:
     shutil.copy(demo, dst)
 readme = ''
 for r in ('README.md', 'README_author.md'):
     if os.path.exists(os.path.join(src, r)):
-        shutil.copy(os.path.join(src, r), os.path.join(dst, 'README_author.md'))
+        if not same: shutil.copy(os.path.join(src, r), os.path.join(dst, 'README_author.md'))
         readme = open(os.path.join(src, r)).read()
 first = next((l.strip() for l in readme.splitlines() if l.strip()), '')
 meta = {
@@ -50,5 +52,11 @@ meta = {
  "checks": res,
  "author": "fresh sub-agent given only the property text and a scratch worktree",
 }
-json.dump(meta, open(os.path.join(dst, 'meta.json'), 'w'), indent=1)
+mp = os.path.join(dst, 'meta.json')
+if os.path.exists(mp):
+    old = json.load(open(mp))
+    if old.get('notes'): meta['notes'] = old['notes'] + ' RE-TRIAL: ' + json.dumps(res)
+    if old.get('breaks') and not meta['breaks']: meta['breaks'] = old['breaks']
+    if old.get('checks') and old['checks'] != res: meta['first_trial'] = old.get('first_trial', old['checks'])
+json.dump(meta, open(mp, 'w'), indent=1)
 print(json.dumps(meta['confirmed']), json.dumps(res))
